@@ -69,7 +69,8 @@ def main():
         external = rng.random() < 0.25
         out = rng.choice(["out.c", "out.c", "mod.c", "noext", "a.b.c", "s0000000000.c", "x.C"])
         pre = rng.sample(nm, rng.randint(0, 14)) + rng.sample(["s0000000000.c", "d0000000000.c", "s0000000001.c", "d0000000003.c", "s0000000007.c"], rng.randint(0, 4))
-        form = rng.choice(["rel", "dotrel", "abs", "nested", "inputinside", "long", "longabs"])
+        form = rng.choice(["rel", "dotrel", "abs", "nested", "inputinside", "long", "longabs", "missingdir"] if j % 9 == 8 else
+                          ["rel", "dotrel", "abs", "nested", "inputinside", "long", "longabs"])
         clean = rng.random() < 0.6
         if j * 12 < len(nm):
             # every near-miss name is present in at least one run with the clean option
@@ -93,7 +94,7 @@ def main():
             LONG = os.path.join("Makefile.d", "L" * 100, "M" * 100, "N" * 60)
             outdir = {"rel": root, "dotrel": os.path.join(root, "sub"), "abs": os.path.join(root, "o"),
                       "nested": os.path.join(root, "a", "b"), "inputinside": root, "long": os.path.join(root, LONG),
-                      "longabs": os.path.join(root, LONG)}[s["form"]]
+                      "longabs": os.path.join(root, LONG), "missingdir": root}[s["form"]]
             os.makedirs(outdir, exist_ok=True)
             os.makedirs(os.path.join(root, "elsewhere"), exist_ok=True)
             indir = outdir if s["form"] == "inputinside" else os.path.join(root, "elsewhere")
@@ -125,11 +126,22 @@ def main():
             cwd = root
             outarg = {"rel": o["out"], "dotrel": "./sub/" + o["out"], "abs": os.path.join(outdir, o["out"]),
                       "nested": "a/b/" + o["out"], "inputinside": o["out"], "long": LONG + "/" + o["out"],
-                      "longabs": os.path.join(outdir, o["out"])}[s["form"]]
+                      "longabs": os.path.join(outdir, o["out"]),
+                      # the directory of the output path does not exist: nothing may be written or deleted anywhere (the pre-existing
+                      # names lie in the invocation directory, where a translator that carried on would find them)
+                      "missingdir": rng.choice(["nosuchdir/", "input.wasm/", os.path.join(root, "absent", "deeper") + "/"]) + o["out"]}[s["form"]]
             before = snapshot(root)
             rc, so, se = run(args + [inp, outarg], cwd=cwd, timeout=120)
             after = snapshot(root)
             devs = []
+            if s["form"] == "missingdir":
+                if rc == 0:
+                    devs.append(("exit", "status 0 although the output directory does not exist"))
+                if after != before:
+                    devs.append(("touched", "files changed although the output directory does not exist: %s" %
+                                 sorted(set(after.items()) ^ set(before.items()))[:4]))
+                shutil.rmtree(root, ignore_errors=True)
+                return j, devs, " ".join(args[1:] + ["input.wasm", outarg])
             if rc != 0:
                 devs.append(("exit", "status %s: %s" % (rc, se[-300:])))
             rel = os.path.relpath(outdir, root)
